@@ -35,13 +35,29 @@ class Sess:
         self.raw = r.random() < 0.3
         self.a, self.b = rand_ip(r), rand_ip(r)
         self.pa, self.pb = rand_port(r), r.choice([4789, rand_port(r)])
-        self.vni = r.choice([0, 1, 2**24 - 1, r.getrandbits(24)])
+        self._vni = r.choice([0, 1, 2**24 - 1, r.getrandbits(24)])
         self.et = r.choice([0x6558, 0x0800, 0x88be, r.getrandbits(16)])
         self.count = 0
+        # how the session's options are written: by name, by position, or left to their defaults (VNI 0, framed)
+        self.style = r.choice(["named", "named", "positional", "default"])
+
+    @property
+    def vni(self):
+        # (the kind may be reassigned after construction: decided when asked)
+        return 0 if (self.style == "default" and self.kind == "vxlan") else self._vni
 
     def decl(self):
-        kw = {"raw": True} if self.raw else {}
+        raw_written = self.raw or (self.style != "default" and self.kind != "vxlan" and hash(self.name) % 3 == 0)
+        if self.style == "positional":
+            if self.kind == "vxlan":
+                return Let(self.name, Call("vxlan::session", SOCK(self.a, self.pa), SOCK(self.b, self.pb), INT(self.vni), BOOL(self.raw)))
+            if self.kind == "gre":
+                return Let(self.name, Call("gre::session", IP(self.a), IP(self.b), INT(self.et), *([BOOL(self.raw)] if raw_written else [])))
+            return Let(self.name, Call(self.kind + "::session", IP(self.a), IP(self.b), *([BOOL(self.raw)] if raw_written else [])))
+        kw = {"raw": self.raw} if raw_written else {}
         if self.kind == "vxlan":
+            if self.style == "default":
+                return Let(self.name, Call("vxlan::session", SOCK(self.a, self.pa), SOCK(self.b, self.pb), **kw))
             return Let(self.name, Call("vxlan::session", SOCK(self.a, self.pa), SOCK(self.b, self.pb), sessionid=self.vni, **kw))
         if self.kind == "gre":
             return Let(self.name, Call("gre::session", IP(self.a), IP(self.b), INT(self.et), **kw))
